@@ -429,6 +429,7 @@ class Driver:
         self.rec = Recorder()
         self.product = make_product(product_name, stochastic_dates=(mode != "fixed"), form=form)
         self.path_managers = None
+        self.copied = None  # "dill" / "deepcopy" once the simulator in use is a copy made by pool_copy
         self.grid_times = np.array([float(t) for t in self.product.times_grid()])
         self.maturity = float(self.product.maturity)
         self.obj = None
@@ -486,6 +487,8 @@ class Driver:
             self.obj = obj
             eps = self.eps_arg
             n_batch = max(1, len(counts) // max(1, len(self.grid_times) - 1)) if self.mode == "fixed" else 1
+            if self.form == "np":
+                n_batch = np.int64(n_batch)  # the engines hand over entries of integer arrays
             self.n_batch = n_batch
             self.rng.begin_path(counts, times)
             if self.cls == "levy":
@@ -635,7 +638,9 @@ class Driver:
         n = max(1, len(self.grid_times) - 1)
         n_batch = max(1, len(counts) // n) if self.mode == "fixed" else 1
         if n_paths is not None:
-            n_batch = n_paths  # 0 = nothing to pre-compute (what next_level does at an intermediate level)
+            n_batch = n_paths  # 0 = nothing to pre-compute (a level that needs no further path in a pass of the engine)
+        if self.form == "np":
+            n_batch = np.int64(n_batch)
         self.rng.begin_path(counts, ())
         if reinit:
             self.obj.initialisation(self.product, max_step_epsilon=self.eps_arg)
@@ -661,6 +666,7 @@ class Driver:
             raise ValueError(how)
         self.obj = new
         self.proc = new.fine_process if self.cls.startswith("coupling") else new
+        self.copied = how
         return new
 
     def other_object(self, next_level=True):
